@@ -11,7 +11,7 @@
 (* reserved at offset 0 whatever happened before, a rejected write issues  *)
 (* no operation and changes nothing, a clean finalize issues no operation. *)
 (***************************************************************************)
-EXTENDS Integers, Sequences, FiniteSets, EsriBytes, EsriTypes, EsriCodec
+EXTENDS Integers, Sequences, FiniteSets, EsriBytes, EsriTypes, EsriCodec, IoDevice
 
 VARIABLES
     shp, shx,     \* devices: [bytes, pos, unflushed]
@@ -28,25 +28,6 @@ VARIABLES
 
 wvars == << shp, shx, hasShx, hType, hLen, hBox, recNum, dirty, written, status, shpOps, shxOps, last >>
 
-Dev0 == [bytes |-> << >>, pos |-> 0, unflushed |-> FALSE]
-
-(***************************************************************************)
-(* Devices and operations                                                  *)
-(*   [k |-> "w", data]   write at the current position                     *)
-(*   [k |-> "s", to]     seek to an absolute offset (to = -1: the end)     *)
-(*   [k |-> "f", n]      flush; n = number of shapes this flush commits    *)
-(***************************************************************************)
-OpW(d)  == [k |-> "w", data |-> d, to |-> 0, n |-> 0]
-OpS(t)  == [k |-> "s", data |-> << >>, to |-> t, n |-> 0]
-OpF(n)  == [k |-> "f", data |-> << >>, to |-> 0, n |-> n]
-
-ApplyOp(d, op) ==
-    CASE op.k = "w" -> [bytes |-> Patch(d.bytes, d.pos, op.data), pos |-> d.pos + Len(op.data), unflushed |-> TRUE]
-      [] op.k = "s" -> [d EXCEPT !.pos = IF op.to = -1 THEN Len(d.bytes) ELSE op.to]
-      [] op.k = "f" -> [d EXCEPT !.unflushed = FALSE]
-
-RECURSIVE ApplyOps(_, _)
-ApplyOps(d, ops) == IF ops = << >> THEN d ELSE ApplyOps(ApplyOp(d, Head(ops)), Tail(ops))
 
 (***************************************************************************)
 (* The running header box (C05) as the fold the writer performs            *)
@@ -89,17 +70,41 @@ HeaderBoxSpec(S) == FoldBox(Box0, S).b
 (***************************************************************************)
 PlaceholderHeader(t) == EncodeHeader(50, t, ZeroBox)
 
-ShpOpsOfWrite(first, t, num, s) ==
-    (IF first THEN << OpS(0), OpW(PlaceholderHeader(t)) >> ELSE << >>)
-    \o << OpW(EncodeRecord(num, s)) >>
-ShxOpsOfWrite(first, t, off, s) ==
-    (IF first THEN << OpS(0), OpW(PlaceholderHeader(t)) >> ELSE << >>)
-    \o << OpW(BE32(off) \o BE32(ContentWords(s))) >>
+\* The operations of a call, in the order the writer issues them on its two
+\* destinations: a sequence of [d |-> "shp" | "shx", op |-> operation].
+At(d, op) == [d |-> d, op |-> op]
 
-ShpOpsOfFinalize(t, len, box, n) ==
-    << OpS(0), OpW(EncodeHeader(len, t, box)), OpS(-1), OpF(n) >>
-ShxOpsOfFinalize(t, box, n) ==
-    << OpS(0), OpW(EncodeHeader(50 + 4 * n, t, box)), OpS(-1), OpF(n) >>
+OpsOfWrite(first, withShx, t, num, off, s) ==
+    (IF first THEN << At("shp", OpS(0)), At("shp", OpW(PlaceholderHeader(t))) >> ELSE << >>)
+    \o (IF first /\ withShx THEN << At("shx", OpS(0)), At("shx", OpW(PlaceholderHeader(t))) >> ELSE << >>)
+    \o << At("shp", OpW(EncodeRecord(num, s))) >>
+    \o (IF withShx THEN << At("shx", OpW(BE32(off) \o BE32(ContentWords(s)))) >> ELSE << >>)
+
+OpsOfFinalize(withShx, t, len, box, n) ==
+    << At("shp", OpS(0)), At("shp", OpW(EncodeHeader(len, t, box))), At("shp", OpS(-1)), At("shp", OpF(n)) >>
+    \o (IF withShx
+        THEN << At("shx", OpS(0)), At("shx", OpW(EncodeHeader(50 + 4 * n, t, box))), At("shx", OpS(-1)), At("shx", OpF(n)) >>
+        ELSE << >>)
+
+RECURSIVE OpsFor(_, _)
+OpsFor(list, d) == IF list = << >> THEN << >>
+                   ELSE (IF Head(list).d = d THEN << Head(list).op >> ELSE << >>) \o OpsFor(Tail(list), d)
+
+\* the first k-1 operations of a call whose k-th operation fails; when that one is a
+\* write, p of its bytes (0 <= p < length) reach the destination before the error
+FailedPrefix(list, k, p) ==
+    LET done == SubSeq(list, 1, k - 1)
+        kth  == list[k]
+    IN  IF kth.op.k = "w" /\ p > 0
+        THEN Append(done, At(kth.d, OpW(SubSeq(kth.op.data, 1, p))))
+        ELSE done
+
+\* effect of a list of operations on the four device variables
+IssueOps(list) ==
+    LET o1 == OpsFor(list, "shp")
+        o2 == OpsFor(list, "shx")
+    IN  /\ shp' = ApplyOps(shp, o1) /\ shpOps' = shpOps \o o1
+        /\ shx' = ApplyOps(shx, o2) /\ shxOps' = shxOps \o o2
 
 (***************************************************************************)
 (* Actions                                                                 *)
@@ -121,11 +126,7 @@ WReset(withShx) ==
 WriteOk(s) ==
     /\ status = "live" /\ s.t # 0
     /\ hType = 0 \/ hType = s.t
-    /\ LET first == hType = 0
-           o1 == ShpOpsOfWrite(first, s.t, recNum, s)
-           o2 == IF hasShx THEN ShxOpsOfWrite(first, s.t, hLen, s) ELSE << >>
-       IN  /\ shp' = ApplyOps(shp, o1) /\ shpOps' = shpOps \o o1
-           /\ shx' = ApplyOps(shx, o2) /\ shxOps' = shxOps \o o2
+    /\ IssueOps(OpsOfWrite(hType = 0, hasShx, s.t, recNum, hLen, s))
     /\ hType' = s.t
     /\ hLen' = hLen + 4 + ContentWords(s)
     /\ hBox' = GrowBox(hBox, s)
@@ -143,39 +144,84 @@ WriteRejected(s) ==
     /\ UNCHANGED << shp, shx, hasShx, hType, hLen, hBox, recNum, dirty, written, status, shpOps, shxOps >>
 
 Finalize ==
-    /\ status = "live"
+    /\ status \in {"live", "torn", "poisoned"}
     /\ IF dirty
-       THEN LET n  == Len(written)
-                o1 == ShpOpsOfFinalize(hType, hLen, hBox.b, n)
-                o2 == IF hasShx THEN ShxOpsOfFinalize(hType, hBox.b, n) ELSE << >>
-            IN  /\ shp' = ApplyOps(shp, o1) /\ shpOps' = shpOps \o o1
-                /\ shx' = ApplyOps(shx, o2) /\ shxOps' = shxOps \o o2
-                /\ dirty' = FALSE
+       THEN /\ IssueOps(OpsOfFinalize(hasShx, hType, hLen, hBox.b, Len(written)))
+            /\ dirty' = FALSE
                 /\ last' = [call |-> "finalize", res |-> "ok", io |-> TRUE, req |-> 0, act |-> 0]
        ELSE /\ UNCHANGED << shp, shx, shpOps, shxOps, dirty >>
             /\ last' = [call |-> "finalize", res |-> "ok", io |-> FALSE, req |-> 0, act |-> 0]
-    /\ UNCHANGED << hasShx, hType, hLen, hBox, recNum, written, status >>
+    /\ status' = IF status = "torn" THEN "live" ELSE status     \* a completed retry repairs a torn header
+    /\ UNCHANGED << hasShx, hType, hLen, hBox, recNum, written >>
 
 \* dropping = finalize whose result is ignored, then the writer is gone
 Drop ==
-    /\ status = "live"
+    /\ status \in {"live", "torn", "poisoned"}
     /\ IF dirty
-       THEN LET n  == Len(written)
-                o1 == ShpOpsOfFinalize(hType, hLen, hBox.b, n)
-                o2 == IF hasShx THEN ShxOpsOfFinalize(hType, hBox.b, n) ELSE << >>
-            IN  /\ shp' = ApplyOps(shp, o1) /\ shpOps' = shpOps \o o1
-                /\ shx' = ApplyOps(shx, o2) /\ shxOps' = shxOps \o o2
+       THEN IssueOps(OpsOfFinalize(hasShx, hType, hLen, hBox.b, Len(written)))
        ELSE UNCHANGED << shp, shx, shpOps, shxOps >>
     /\ dirty' = FALSE
-    /\ status' = "dropped"
+    /\ status' = IF status \in {"live", "torn"} THEN "dropped" ELSE "dropped-poisoned"
     /\ last' = [call |-> "drop", res |-> "ok", io |-> dirty, req |-> 0, act |-> 0]
     /\ UNCHANGED << hasShx, hType, hLen, hBox, recNum, written >>
+
+(***************************************************************************)
+(* Destination failures (C12).  The k-th operation of the call fails: the   *)
+(* operations before it have taken effect, the call returns the I/O error.  *)
+(* A failed write leaves a torn record: the specification demands nothing   *)
+(* of the files afterwards ("poisoned") except that no call panics.  A      *)
+(* failed finalize leaves dirty set, so finalize can simply be called again.*)
+(***************************************************************************)
+WriteFails(s, k, p) ==
+    /\ status \in {"live", "torn"} /\ s.t # 0
+    /\ hType = 0 \/ hType = s.t
+    /\ LET list == OpsOfWrite(hType = 0, hasShx, s.t, recNum, hLen, s)
+       IN  /\ k \in 1..Len(list)
+           /\ IssueOps(FailedPrefix(list, k, p))
+    /\ status' = "poisoned"
+    /\ last' = [call |-> "write", res |-> "io", io |-> TRUE, req |-> 0, act |-> 0]
+    /\ UNCHANGED << hasShx, hType, hLen, hBox, recNum, dirty, written >>
+
+FinalizeFails(k, p) ==
+    /\ status \in {"live", "torn", "poisoned"} /\ dirty
+    /\ LET list == OpsOfFinalize(hasShx, hType, hLen, hBox.b, Len(written))
+       IN  /\ k \in 1..Len(list)
+           /\ IssueOps(FailedPrefix(list, k, p))
+    \* the header may be half rewritten and the cursor anywhere: "torn" until a finalize completes
+    /\ status' = IF status = "poisoned" THEN "poisoned" ELSE "torn"
+    /\ last' = [call |-> "finalize", res |-> "io", io |-> TRUE, req |-> 0, act |-> 0]
+    /\ UNCHANGED << hasShx, hType, hLen, hBox, recNum, dirty, written >>
+
+\* a write on a torn writer (failed finalize not yet retried): C12 says nothing about
+\* it -- the record lands wherever the failed finalize left the cursor
+WriteTorn(s) ==
+    /\ status = "torn" /\ s.t # 0 /\ (hType = 0 \/ hType = s.t)
+    /\ IssueOps(OpsOfWrite(hType = 0, hasShx, s.t, recNum, hLen, s))
+    /\ status' = "poisoned"
+    /\ last' = [call |-> "write", res |-> "ok", io |-> TRUE, req |-> 0, act |-> 0]
+    /\ UNCHANGED << hasShx, hType, hLen, hBox, recNum, dirty, written >>
+
+\* calls on a poisoned writer: nothing is demanded of the files any more
+WritePoisoned(s) ==
+    /\ status = "poisoned"
+    /\ last' = [call |-> "write", res |-> "any", io |-> TRUE, req |-> 0, act |-> 0]
+    /\ UNCHANGED << shp, shx, hasShx, hType, hLen, hBox, recNum, dirty, written, status, shpOps, shxOps >>
+
+\* dropping a writer whose destination keeps failing: the error is swallowed
+DropFails(k, p) ==
+    /\ status \in {"live", "torn", "poisoned"} /\ dirty
+    /\ LET list == OpsOfFinalize(hasShx, hType, hLen, hBox.b, Len(written))
+       IN  /\ k \in 1..Len(list)
+           /\ IssueOps(FailedPrefix(list, k, p))
+    /\ status' = "dropped-failed"
+    /\ last' = [call |-> "drop", res |-> "ok", io |-> TRUE, req |-> 0, act |-> 0]
+    /\ UNCHANGED << hasShx, hType, hLen, hBox, recNum, dirty, written >>
 
 (***************************************************************************)
 (* Properties of the writer (invariants over the variables above)          *)
 (***************************************************************************)
 \* a point at which the files must be complete: just after a finalize, or dropped
-AtCommit == status = "dropped" \/ (last.call = "finalize" /\ last.res = "ok")
+AtCommit == status = "dropped" \/ (status = "live" /\ last.call = "finalize" /\ last.res = "ok")
 
 \* C09/C02: complete, well-formed, exactly the shapes so far, flushed
 Inv_Committed ==
@@ -208,25 +254,8 @@ Inv_HeaderBox ==
 Inv_OneType == \A i \in 1..Len(written) : written[i].t = hType
 
 (***************************************************************************)
-(* Crash model (C11).  What is persisted after a crash is, per             *)
-(* destination and independently, the effect of a prefix of its operation  *)
-(* sequence plus a byte prefix of the next write.                          *)
+(* Crash safety (C11) over the crash model of IoDevice                      *)
 (***************************************************************************)
-RECURSIVE BytesAfter(_, _, _)
-\* the device after the first i operations (seeks included)
-BytesAfter(ops, i, d) == IF i = 0 THEN d ELSE BytesAfter(Tail(ops), i - 1, ApplyOp(d, Head(ops)))
-
-CutBytes(ops, i, c) ==
-    LET d == BytesAfter(ops, i, Dev0)
-    IN  IF c = 0 \/ i >= Len(ops) \/ ops[i + 1].k # "w" THEN d.bytes
-        ELSE Patch(d.bytes, d.pos, SubSeq(ops[i + 1].data, 1, c))
-
-\* number of shapes committed by the flushes among the first i operations
-RECURSIVE CommittedAt(_, _)
-CommittedAt(ops, i) ==
-    IF i = 0 THEN 0
-    ELSE IF ops[i].k = "f" THEN Max2(ops[i].n, CommittedAt(ops, i - 1)) ELSE CommittedAt(ops, i - 1)
-
 CrashSafeAt(i, c, j, d) ==
     LET sb  == CutBytes(shpOps, i, c)
         xb  == CutBytes(shxOps, j, d)
